@@ -794,12 +794,13 @@ namespace
     }
     value resize_array_scalar(runtime& runtime, value::cref left, value::cref right)
     {
-        auto i = right.data<d_scalar, size_t>();
-        if (i < 0)
+        // check the sign before converting: size_t is never negative
+        if (right.data<d_scalar, float>() < 0)
         {
             runtime.__logmsg(err::NegativeSize(runtime.context_active().current_frame().diag_info_from_position()));
             return {};
         }
+        auto i = right.data<d_scalar, size_t>();
         left.data<d_array>()->resize(i);
         return {};
     }
@@ -1229,6 +1230,7 @@ namespace
             return {};
         }
         auto val = params[1];
+        auto oldsize = arr->size();
         if (static_cast<int>(arr->size()) <= index)
         {
             arr->resize(index + 1);
@@ -1238,6 +1240,8 @@ namespace
         if (!arr->recursion_test())
         {
             (*arr)[index] = oldval;
+            // a refused set leaves the array as it was, also when it had grown for it
+            arr->resize(oldsize);
             runtime.__logmsg(err::ArrayRecursion(runtime.context_active().current_frame().diag_info_from_position()));
             return {};
         }
